@@ -21,6 +21,8 @@ package pow
 //@   at after call Verify#1: ghost sigOK := callresult
 //@   at after call Since#1: ghost age := callresult
 //@   at after call dyn#1: ghost subj := callresult
+//@   at call dyn#1: assert the-expected-subject-is-computed-from-the-proofs-key: callarg0 == pubKey
+//@   at call Verify#2: assert the-stamp-is-verified-against-the-expected-subject-not-its-own: callarg0 == hc && callarg1 == subj
 //@   at after call Verify#2: ghost stampErr := callresult
 //@   ensures lengths: err == nil ==> len(req.GetPubKey()) == 32 && len(req.GetSignature()) == 64 && len(req.GetSolution()) > 0
 //@   ensures signed: err == nil ==> sigOK
